@@ -62,6 +62,7 @@ type hist struct {
 	openedUpdate    map[int]*pt.TableBlindState // hand -> blind level set from inside its opened callback
 	openedDone      map[int]bool
 	raceViol        *Viol // judged by race() itself right after the window (see monRaceViol)
+	stopRetSeq      int   // number of snapshots published when a racing close / release returned
 	breakDuringWait bool // a break was applied after the next hand had been set up (open-game wait)
 }
 
@@ -135,6 +136,17 @@ func (h *hist) race(rc *raceCfg, pol *HandPolicy) string {
 				h.taint = "after-bystander-left-while-hand-settles"
 			}
 		default:
+			if strings.HasPrefix(kind, "blind-") || kind == "close" || kind == "release" {
+				// table-level call issued while the hand ends: h.apply performs it and tells the monitors. A break
+				// that arrives while the hand is ending only has to prevent the next open (whether the pause
+				// decision of the continue step sees it depends on the schedule).
+				h.apply(rc.op)
+				h.stopRetSeq = len(td.snaps)
+				if kind == "blind-break" {
+					h.breakDuringWait = true
+				}
+				return
+			}
 			panic("unknown race op " + rc.op)
 		}
 	})
